@@ -502,6 +502,29 @@ func TestVerifC04Tok(t *testing.T) {
 				emit(vVariant{Name: tag + "claims-" + m.name, Class: m.class, HAlg: string(k.alg), By: "signer"}, "Bearer "+tok)
 			}
 
+			// --- the SECOND kid of every authorised key (buildKeySet: JWK SHA-256 thumbprint next to the ssh fingerprint), the
+			// thumbprint kid of ANOTHER authorised key (its owner did not sign), and of the attacker's key
+			{
+				thumb := func(key *vKey) string {
+					j, err := jwk.FromRaw(key.pub)
+					if err != nil || jwk.AssignKeyID(j, jwk.WithThumbprintHash(crypto.SHA256)) != nil {
+						return "no-thumbprint"
+					}
+					return j.KeyID()
+				}
+				for _, kv := range []struct {
+					name, class, kid, by string
+				}{{"kid-jwk-thumbprint", "valid", thumb(k), "signer"}, {"kid-jwk-thumbprint-of-other-key", "forged", thumb(other), "kid-of-other-key"},
+					{"kid-jwk-thumbprint-of-attacker", "forged", thumb(attacker), "kid-of-attacker"}} {
+					b := base
+					b.hdr = map[string]interface{}{"typ": "JWT", "kid": kv.kid}
+					b.payload = vJSON(vAPIClaims(k.name, aud, now))
+					sg := b.sigFor(k)
+					sg.hdr["kid"] = kv.kid // sigFor puts the signer's ssh-fingerprint kid
+					emit(vVariant{Name: tag + kv.name, Class: kv.class, HAlg: string(k.alg), By: kv.by}, "Bearer "+vCompact(sg, b.payload))
+				}
+			}
+
 			// --- Authorization header shapes around a valid token
 			valid := sign(vAPIClaims(k.name, aud, now))
 			shapes := []struct{ name, class, hdr string }{
